@@ -7,6 +7,7 @@ import (
 	"fmt"
 	"strings"
 	"sync"
+	"sync/atomic"
 	"time"
 
 	"github.com/AdguardTeam/golibs/service"
@@ -57,6 +58,7 @@ type rwWorld struct {
 	timer     chan time.Time // unbuffered: a send succeeds only while the worker is parked in its select
 	afterCh   chan struct{}
 	startCtx  context.Context
+	startStop context.CancelFunc
 	shutCtx   context.Context
 	ctxs      map[int]*ctxInfo
 	nctx      int
@@ -78,20 +80,21 @@ func newRWWorld(loopOuts []string, finalOut string, durOf func(int) time.Duratio
 	type startKey struct{}
 	type shutKey struct{}
 	return &rwWorld{
-		base:     time.Date(2026, 1, 2, 3, 4, 5, 0, time.UTC),
-		answers:  map[time.Duration]int{},
-		durOf:    durOf,
-		afterCh:  make(chan struct{}, 1<<14),
-		startCtx: context.WithValue(context.Background(), startKey{}, 1),
-		shutCtx:  context.WithValue(context.Background(), shutKey{}, 1),
-		ctxs:     map[int]*ctxInfo{},
-		loopOuts: loopOuts,
-		finalOut: finalOut,
-		errs:     map[int]error{},
-		gateHit:  make(chan struct{}, 1),
-		gateGo:   make(chan struct{}),
-		finalHit: make(chan struct{}, 1),
-		finalGo:  make(chan struct{}),
+		base:      time.Date(2026, 1, 2, 3, 4, 5, 0, time.UTC),
+		answers:   map[time.Duration]int{},
+		durOf:     durOf,
+		afterCh:   make(chan struct{}, 1<<14),
+		startCtx:  context.WithValue(context.Background(), startKey{}, 1),
+		startStop: func() {},
+		shutCtx:   context.WithValue(context.Background(), shutKey{}, 1),
+		ctxs:      map[int]*ctxInfo{},
+		loopOuts:  loopOuts,
+		finalOut:  finalOut,
+		errs:      map[int]error{},
+		gateHit:   make(chan struct{}, 1),
+		gateGo:    make(chan struct{}),
+		finalHit:  make(chan struct{}, 1),
+		finalGo:   make(chan struct{}),
 	}
 }
 
@@ -291,8 +294,21 @@ func (w *rwWorld) offerTicks(d time.Duration) bool {
 	return false
 }
 
+// confirmedHangs counts scenarios whose hang reproduced three times.  Once a
+// few are confirmed the verdict is settled; the remaining scenarios are run
+// once with a short watchdog so that a tree with such a defect does not take
+// hours.
+var confirmedHangs atomic.Int32
+
+func stepWatchdog() time.Duration {
+	if confirmedHangs.Load() >= 3 {
+		return 2 * time.Second
+	}
+	return watchdog
+}
+
 func (w *rwWorld) deliverTick() bool {
-	deadline := time.Now().Add(watchdog)
+	deadline := time.Now().Add(stepWatchdog())
 	for spin := 0; ; spin++ {
 		if w.tryTick() {
 			return true
@@ -317,6 +333,13 @@ type rwScenario struct {
 	// flight is released while the final refresh is still in flight (else
 	// after Shutdown has returned).
 	LoopFirst bool
+	// CancelAfter: when the application cancels the context it passed to
+	// Start: -2 never, -1 already cancelled at Start, k >= 0 while the
+	// worker is parked after k delivered ticks (k = number of ticks: just
+	// before Shutdown).  CancelRace: right after Start has returned, without
+	// waiting for the worker (modes other than "parked" always race).
+	CancelAfter int
+	CancelRace  bool
 	// Window: how long the final refresh is held inside Refresh while the
 	// driver keeps offering the tick of the pending timer.
 	Window time.Duration
@@ -349,9 +372,22 @@ func runRefresh(sc rwScenario) rwResult {
 		Schedule:           w,
 		RefreshOnShutdown:  sc.ROS,
 	})
-	w.log = append(w.log, rwEvent{Ev: "new", ROS: sc.ROS})
+	w.startCtx, w.startStop = context.WithCancel(w.startCtx)
+	cancelStart := func() {
+		w.mu.Lock()
+		w.log = append(w.log, rwEvent{Ev: "cancel"})
+		w.mu.Unlock()
+		w.startStop()
+	}
+	w.log = append(w.log, rwEvent{Ev: "new", ROS: sc.ROS, Canc: sc.CancelAfter == -1})
+	if sc.CancelAfter == -1 {
+		w.startStop()
+	}
 	if err := worker.Start(w.startCtx); err != nil {
 		return w.snapshot("Start returned " + err.Error())
+	}
+	if sc.CancelAfter >= 0 && (sc.CancelRace || sc.Mode == "early") {
+		cancelStart()
 	}
 	gated := false
 	if sc.Mode != "early" {
@@ -359,6 +395,9 @@ func runRefresh(sc rwScenario) rwResult {
 			return w.snapshot("the worker did not call clock.After after Start")
 		}
 		for i := range sc.LoopOuts {
+			if sc.CancelAfter == i && !sc.CancelRace {
+				cancelStart()
+			}
 			if !w.deliverTick() {
 				return w.snapshot(fmt.Sprintf("the worker never waited on the timer of its After #%d", i+1))
 			}
@@ -375,6 +414,9 @@ func runRefresh(sc rwScenario) rwResult {
 				return w.snapshot(fmt.Sprintf("the worker did not call clock.After after refresh #%d", i+1))
 			}
 		}
+	}
+	if !gated && sc.Mode != "early" && sc.CancelAfter == len(sc.LoopOuts) && !sc.CancelRace {
+		cancelStart()
 	}
 	// Shutdown.
 	w.mu.Lock()
@@ -475,7 +517,7 @@ func str(v any) string {
 
 // predicted converts the compact TLC events to rwEvents.
 func predicted(v rwVec) (evs []rwEvent, sc rwScenario, err error) {
-	sc = rwScenario{ROS: v.ROS, Mode: "parked", FinalOut: "nil"}
+	sc = rwScenario{ROS: v.ROS, Mode: "parked", FinalOut: "nil", CancelAfter: -2}
 	evs = append(evs, rwEvent{Ev: "new", ROS: v.ROS})
 	for _, e := range v.Events {
 		if len(e) == 0 {
@@ -486,6 +528,14 @@ func predicted(v rwVec) (evs []rwEvent, sc rwScenario, err error) {
 			evs = append(evs, rwEvent{Ev: "ask", Fresh: num(e[1]) == 1, D: num(e[2]), Canc: true})
 		case "sleep":
 			evs = append(evs, rwEvent{Ev: "sleep", D: num(e[1])})
+		case "start":
+			if num(e[1]) == 1 {
+				sc.CancelAfter = -1
+				evs[0].Canc = true
+			}
+		case "cancel":
+			sc.CancelAfter = len(sc.LoopOuts)
+			evs = append(evs, rwEvent{Ev: kind})
 		case "tick", "shutdown":
 			evs = append(evs, rwEvent{Ev: kind})
 		case "refresh":
@@ -510,7 +560,9 @@ func predicted(v rwVec) (evs []rwEvent, sc rwScenario, err error) {
 func describe(e rwEvent) string {
 	switch e.Ev {
 	case "new":
-		return fmt.Sprintf("NewRefreshWorker(RefreshOnShutdown=%v)+Start", e.ROS)
+		return fmt.Sprintf("NewRefreshWorker(RefreshOnShutdown=%v)+Start(ctx already cancelled=%v)", e.ROS, e.Canc)
+	case "cancel":
+		return "the application cancels the Start context"
 	case "ask":
 		return fmt.Sprintf("UntilNext#%d(now fresh=%v, contexts cancelled=%v)", e.D, e.Fresh, e.Canc)
 	case "sleep":
@@ -552,8 +604,17 @@ func scenarioKey(sc rwScenario) string {
 	if sc.Mode == "overlap" && sc.LoopFirst {
 		mode = "overlap(loop refresh released during the final refresh)"
 	}
-	return fmt.Sprintf("RefreshWorker RefreshOnShutdown=%v mode=%s refreshes=[%s] final=%s", sc.ROS, mode,
-		strings.Join(sc.LoopOuts, ","), sc.FinalOut)
+	cancel := ""
+	switch {
+	case sc.CancelAfter == -1:
+		cancel = " Start-context=already-cancelled"
+	case sc.CancelAfter >= 0 && (sc.CancelRace || sc.Mode == "early"):
+		cancel = " Start-context=cancelled-right-after-Start"
+	case sc.CancelAfter >= 0:
+		cancel = fmt.Sprintf(" Start-context=cancelled-after-%d-ticks", sc.CancelAfter)
+	}
+	return fmt.Sprintf("RefreshWorker RefreshOnShutdown=%v mode=%s refreshes=[%s] final=%s%s", sc.ROS, mode,
+		strings.Join(sc.LoopOuts, ","), sc.FinalOut, cancel)
 }
 
 func replayRefresh(args []string) error {
@@ -615,6 +676,13 @@ func replayRefresh(args []string) error {
 					break
 				}
 				nh++
+				if confirmedHangs.Load() >= 3 {
+					nh = 3
+					break
+				}
+			}
+			if nh == 3 {
+				confirmedHangs.Add(1)
 			}
 			mu.Lock()
 			defer mu.Unlock()
@@ -711,21 +779,39 @@ func recordRefresh(args []string) error {
 	for _, f := range fins {
 		for nt := 0; nt <= 3; nt++ {
 			for _, outs := range patterns(nt) {
-				scs = append(scs, rwScenario{ROS: f.ros, FinalOut: f.out, LoopOuts: outs, Mode: "parked"})
+				scs = append(scs, rwScenario{ROS: f.ros, FinalOut: f.out, LoopOuts: outs, Mode: "parked", CancelAfter: -2})
+				// the Start context ends: before Start, right after it, before the first tick, before the last
+				scs = append(scs, rwScenario{ROS: f.ros, FinalOut: f.out, LoopOuts: outs, Mode: "parked", CancelAfter: -1})
+				scs = append(scs, rwScenario{ROS: f.ros, FinalOut: f.out, LoopOuts: outs, Mode: "parked", CancelAfter: 0, CancelRace: true})
+				scs = append(scs, rwScenario{ROS: f.ros, FinalOut: f.out, LoopOuts: outs, Mode: "parked", CancelAfter: 0})
+				if nt > 1 {
+					scs = append(scs, rwScenario{ROS: f.ros, FinalOut: f.out, LoopOuts: outs, Mode: "parked", CancelAfter: nt - 1})
+				}
 				if nt > 0 {
-					scs = append(scs, rwScenario{ROS: f.ros, FinalOut: f.out, LoopOuts: outs, Mode: "overlap", LoopFirst: true})
-					scs = append(scs, rwScenario{ROS: f.ros, FinalOut: f.out, LoopOuts: outs, Mode: "overlap"})
+					scs = append(scs, rwScenario{ROS: f.ros, FinalOut: f.out, LoopOuts: outs, Mode: "overlap", LoopFirst: true, CancelAfter: -2})
+					scs = append(scs, rwScenario{ROS: f.ros, FinalOut: f.out, LoopOuts: outs, Mode: "overlap", CancelAfter: -2})
+					scs = append(scs, rwScenario{ROS: f.ros, FinalOut: f.out, LoopOuts: outs, Mode: "overlap", CancelAfter: 0})
 				}
 			}
 		}
-		scs = append(scs, rwScenario{ROS: f.ros, FinalOut: f.out, Mode: "early"})
+		scs = append(scs, rwScenario{ROS: f.ros, FinalOut: f.out, Mode: "early", CancelAfter: -2})
+		scs = append(scs, rwScenario{ROS: f.ros, FinalOut: f.out, Mode: "early", CancelAfter: 0})
 	}
 	// Random block.
 	for h := 0; h < nh; h++ {
-		sc := rwScenario{ROS: rng.IntN(2) == 0, FinalOut: []string{"nil", "err"}[rng.IntN(2)], LoopFirst: rng.IntN(2) == 0}
+		sc := rwScenario{ROS: rng.IntN(2) == 0, FinalOut: []string{"nil", "err"}[rng.IntN(2)], LoopFirst: rng.IntN(2) == 0,
+			CancelAfter: -2}
 		nt := rng.IntN(41)
 		if h%5 == 0 {
 			nt = rng.IntN(4)
+		}
+		switch rng.IntN(5) {
+		case 0:
+			sc.CancelAfter = -1
+		case 1:
+			sc.CancelAfter, sc.CancelRace = 0, true
+		case 2:
+			sc.CancelAfter = rng.IntN(nt + 1)
 		}
 		pErr := rng.Float64()
 		for i := 0; i < nt; i++ {
@@ -766,6 +852,12 @@ func recordRefresh(args []string) error {
 				out[h] = runRefresh(scs[h])
 				if out[h].Hang == "" {
 					break
+				}
+				if confirmedHangs.Load() >= 3 {
+					break
+				}
+				if attempt == 2 {
+					confirmedHangs.Add(1)
 				}
 			}
 		}()
